@@ -17,6 +17,7 @@ import (
 	"strconv"
 	"strings"
 	"sync"
+	"sync/atomic"
 	"time"
 )
 
@@ -71,10 +72,32 @@ func (c *Ctx) Mine() bool {
 func (c *Ctx) Index() int64 { return c.idx }
 
 // Eval counts one executed case.
-func (c *Ctx) Eval() { c.res.Evaluations++ }
+func (c *Ctx) Eval() { c.res.Evaluations++; beat.Add(1) }
+
+// beat is bumped whenever a worker finishes a case; the stall watchdog reads it.
+var beat atomic.Int64
+
+// StallLimit is how long a worker may go without finishing a single case
+// before it gives up with a harness error (never a verdict).
+var StallLimit = 300 * time.Second
+
+func stallWatchdog(id string) {
+	last, since := beat.Load(), time.Now()
+	for {
+		time.Sleep(5 * time.Second)
+		if b := beat.Load(); b != last {
+			last, since = b, time.Now()
+			continue
+		}
+		if time.Since(since) > StallLimit {
+			fmt.Fprintf(os.Stderr, "worker stalled: %s finished no case for %s after %d cases (unmodelled non-termination)\n", id, StallLimit, last)
+			os.Exit(4)
+		}
+	}
+}
 
 // EvalN counts n executed cases.
-func (c *Ctx) EvalN(n int64) { c.res.Evaluations += n }
+func (c *Ctx) EvalN(n int64) { c.res.Evaluations += n; beat.Add(1) }
 
 // Nontrivial counts one distinct non-trivial case.
 func (c *Ctx) Nontrivial() { c.res.Nontrivial++ }
@@ -219,6 +242,7 @@ func WorkerMain(id, tier string, shard, n int, seed int64, deadline time.Time) i
 		return 2
 	}
 	c := &Ctx{Prop: id, Tier: tier, Shard: shard, N: n, Seed: seed, Deadline: deadline}
+	go stallWatchdog(id)
 	p.Run(c)
 	if c.distinct != nil {
 		c.res.Distinct = map[string][]uint64{}
